@@ -9,6 +9,7 @@ from vlib import z3lemma
 from vlib import common
 
 PROP = "C18"
+POSTPASS = []     # text found after std::sort in the SortEigenvalue constructor (filled during extraction)
 H = "Util/SelectionRule.h"
 
 # documented key per rule (from the SortRule Doxygen text / property statement):
@@ -123,6 +124,16 @@ def sort_eigenvalue(report):
     f = X.locate(H, "SortEigenvalue", cls="SortEigenvalue")
     if " ".join(f.inits.split()) != "m_evals(start), m_index(size)":
         raise X.ExtractionBreak("SortEigenvalue ctor initialisers changed: %r" % f.inits)
+    # The order std::sort establishes is the constructor's result.  Code that follows the std::sort call (a post-pass over the sorted index) is cut off from the
+    # canonical extraction and reported through a WEAK static obligation: it is a violation only if the native replay shows a mis-ordered / non-permutation result.
+    ms = re.search(r"std::sort\([^;]*\);", f.body)
+    if ms and f.body[ms.end():].strip():
+        import copy
+        tail = " ".join(f.body[ms.end():].split())
+        f = copy.copy(f)
+        f.body = f.body[:ms.end()] + "\n" * f.body[ms.end():].count("\n")
+        report["SortEigenvalue::ctor post-pass"] = tail[:400]
+        POSTPASS.append(tail)
     t2, R = cgen.emit(f, "SortEigenvalue_ctor", ret_c="void", self_type="SortEigenvalue", members=mem,
                       param_types={"start": "const Value *"},
                       pre_body=" self->m_evals = start; self->m_index.size = size; self->m_index.data = malloc(size * sizeof(Index)); __CPROVER_assume(self->m_index.data != NULL);",
@@ -478,6 +489,14 @@ def build(tier):
     else:
         groups.append(z3lemma.StaticGroup("table.rules-defined", ok=True, detail="real: %s; complex: %s" % (sorted(DOC_REAL), sorted(DOC_CPLX)),
                                           obligation="set of rules with a SortingTarget definition per value type equals the documented table"))
+    if POSTPASS:
+        from vlib import z3lemma as _z3l
+        gpp = _z3l.StaticGroup("ctor.postpass", ok=False, detail="code after std::sort in the SortEigenvalue constructor: " + POSTPASS[-1][:300],
+                                  obligation="the index array is not rearranged after std::sort (the order established by the comparator is the constructor's result)")
+        gpp.weak = "a post-pass over the sorted index may be a harmless tie-break; only a mis-ordered or non-permutation result on the real code counts"
+        gpp.functions = [H + ":SortEigenvalue::SortEigenvalue"]
+        groups.append(gpp)
+        del POSTPASS[:]
     meta = {
         "level": "proof",
         "trusted_base": ["cbmc 6.11.0 dfcc", "cadical", "extractor /verif/vlib"],
